@@ -169,6 +169,15 @@ def fork_run(fn, args: tuple, timeout: float) -> dict:
                 'violations': []}
 
 
+# Real compile() runs are not independent of what the interpreter executed
+# before (found by the determinism self-test: the same QuickPartitioner
+# input gave different blocks after nine other compilations in the same
+# process), and they take seconds anyway: each gets a fresh fork of the
+# warmed-up worker, so that a run depends on its seed only.
+FORK_PER_RUN = ('C01', 'C02', 'C03')
+FORK_TIMEOUT = {'quick': 75, 'thorough': 600}
+
+
 def reset_process_state() -> None:
     """Reset interpreter-global state that would otherwise make a run
     depend on the runs executed before it in the same process."""
@@ -199,7 +208,14 @@ def _worker_loop(k: int, prop: str, tier: str, verif_seed: int, n_runs: int,
             conn.send_bytes(pickle.dumps(('start', i, seed)))
             reset_process_state()
             try:
-                res = run_child(prop, tier, seed, i, i < n_samples)
+                if prop in FORK_PER_RUN:
+                    res = fork_run(run_child,
+                                   (prop, tier, seed, i, i < n_samples),
+                                   FORK_TIMEOUT[tier])
+                    res.setdefault('i', i)
+                    res.setdefault('seed', seed)
+                else:
+                    res = run_child(prop, tier, seed, i, i < n_samples)
             except BaseException as e:  # noqa
                 res = {'i': i, 'seed': seed, 'status': 'harness-error',
                        'status_msg': ''.join(traceback.format_exception(
